@@ -39,6 +39,7 @@ def run(repo, rep, tier):
     _routing(repo, rep)
     _escape(repo, rep)
     _bytes(repo, rep)
+    _file_decoding(repo, rep)
     # in text mode the whole template is one run of the interpolator: its
     # loop (candidate search, '$' run parity, un-doubling, literal tail) is
     # what "only ${...} and $$ are interpreted" rests on -- C06's loop-shape
@@ -276,6 +277,34 @@ def _escape(repo, rep):
     rep.check("'escape'" in t, "R20.2", init.qualname, "'escape' is among "
               "the options the program accepts", construct="escape-option",
               where=L.where(init))
+
+
+def _file_decoding(repo, rep):
+    """In text mode '<meta ... charset=...>' and '<?xml ... encoding=...?>'
+    are ordinary text, not declarations: a text template *file* must not be
+    decoded according to markup it happens to contain.  The file classes
+    share BaseTemplateFile.read -> utils.read_bytes, which sniffs the XML
+    declaration and the meta element unless the text class overrides it."""
+    ci = repo.cls(ZT + "PageTextTemplateFile")
+    own = None
+    for k in repo.mro(ci):
+        if "read" in k.methods:
+            own = k
+            break
+    sniffs = False
+    if own is not None:
+        rd = own.methods["read"]
+        sniffs = any(isinstance(n, ast.Call) and src(n.func) == "read_bytes"
+                     for n in ast.walk(rd.node)) and not any(
+                         "mode" in src(n.test) for n in ast.walk(rd.node)
+                         if isinstance(n, ast.If))
+    rep.check(own is not None and not sniffs, "R20.1", ci.qualname,
+              "a text template file is decoded without consulting markup "
+              "conventions (XML declaration, meta charset)",
+              construct="text-file-sniffs-markup",
+              where=L.where(own.methods["read"]) if own else "",
+              detail="read() of %s calls read_bytes for every mode" % (
+                  own.qualname if own else "?"))
 
 
 def _bytes(repo, rep):
